@@ -226,6 +226,9 @@ func (f *impFn) expr(e ast.Expr, want *ity, c *ictx) (string, *ity) {
 		}
 		p.die(e, "unknown identifier %s", v.Name)
 	case *ast.SelectorExpr:
+		if p.tg.ext && exprText(v) == "fr.Limbs" && f.lookup("fr") == nil {
+			return "limbs", tyInt // the number of 64-bit words of an fr.Element (parameter)
+		}
 		xs, xt := f.expr(v.X, nil, c)
 		if xt.k == "ptr" {
 			if !f.nonNil[exprText(v.X)] {
@@ -247,6 +250,18 @@ func (f *impFn) expr(e ast.Expr, want *ity, c *ictx) (string, *ity) {
 		if xt.k == "array" && xt.elem.k == "grp" {
 			_, get, _ := f.grpLval(v, c)
 			return get, xt.elem
+		}
+		if xt.k == "array" { // array of fr.Element words
+			return "arrGet " + parenImp(xs) + " " + parenImp(f.natIndex(v.Index, c)) + " " + p.zero(xt.elem), xt.elem
+		}
+		if xt.k == "frel" { // word i of an fr.Element (out of range panics in Go: not modelled, reads 0)
+			return "arrGet " + parenImp(xs) + " " + parenImp(f.natIndex(v.Index, c)) + " 0", tyU64
+		}
+		if xt.k == "bigpair" { // the [2]big.Int returned by ecc.SplitScalar
+			if n := litInt(v.Index); n != nil && (n.Int64() == 0 || n.Int64() == 1) {
+				return parenImp(xs) + map[int64]string{0: ".1", 1: ".2"}[n.Int64()], &ity{k: "bigint"}
+			}
+			p.die(e, "index of the split pair (only the literals 0, 1)")
 		}
 		if xt.k != "slice" {
 			p.die(e, "index expression on %v (map reads only as `v, ok := m[k]`)", xt)
@@ -555,6 +570,31 @@ func (f *impFn) call(v *ast.CallExpr, want *ity, c *ictx) (string, *ity) {
 			return "bytesOfString " + parenImp(xs), tyBytes
 		}
 		p.die(v, "conversion %v(%v)", t, xt)
+	}
+	if se, ok := v.Fun.(*ast.SelectorExpr); ok && p.tg.ext {
+		if ix, ok := se.X.(*ast.IndexExpr); ok {
+			if id, ok := ix.X.(*ast.Ident); ok && f.lookup(id.Name) != nil && f.lookup(id.Name).k == "bigpair" && se.Sel.Name == "Sign" && len(v.Args) == 0 {
+				xs, _ := f.expr(ix, nil, c)
+				return "bigSign " + parenImp(xs), tyInt
+			}
+		}
+		if id, ok := se.X.(*ast.Ident); ok {
+			if t := f.lookup(id.Name); t != nil && t.k == "frel" && se.Sel.Name == "BitLen" && len(v.Args) == 0 {
+				return "elBitLen " + lname(id.Name), tyInt // (*fr.Element).BitLen on the raw words (parameter)
+			}
+		}
+		if exprText(v.Fun) == "ecc.SplitScalar" && len(v.Args) == 2 && f.lookup("ecc") == nil {
+			// the lattice basis (second argument, a package-level variable) is part of the parameter `split`
+			u, ok := v.Args[1].(*ast.UnaryExpr)
+			if !ok || u.Op != token.AND || exprText(u.X) != "glvBasis" || f.lookup("glvBasis") != nil {
+				p.die(v, "ecc.SplitScalar form (only SplitScalar(s, &glvBasis))")
+			}
+			as, at := f.expr(v.Args[0], nil, c)
+			if at.k != "bigint" {
+				p.die(v, "SplitScalar argument")
+			}
+			return "split " + parenImp(as), &ity{k: "bigpair"}
+		}
 	}
 	if se, ok := v.Fun.(*ast.SelectorExpr); ok {
 		if id, ok := se.X.(*ast.Ident); ok {
